@@ -138,21 +138,21 @@ def run_oracle(ck, fmt_keywords):
     # exhaustive (parent, side, child) triples at depth 2 and sampled depth-3 chains
     for key, e in G.triples():
         streams.append(("oracle-triples", "from t\nselect {v = %s}\n" % G.src(e)))
-    for key, e in G.quads(rng, ck.n(800, 12000)):
+    for key, e in G.quads(rng, ck.n(400, 12000)):
         streams.append(("oracle-quads", "let v = %s\n" % G.src(e)))
     # generated, clean (none of the known-defect constructs: an unknown defect cannot hide behind a known one)
     P.CLEAN[0] = True
-    for _ in range(ck.n(600, 9000)):
+    for _ in range(ck.n(300, 9000)):
         streams.append(("oracle-compilable", P.compilable(rng)))
-    for _ in range(ck.n(600, 9000)):
+    for _ in range(ck.n(300, 9000)):
         streams.append(("oracle-syntactic", P.syntactic(rng)))
-    for _ in range(ck.n(300, 5000)):
+    for _ in range(ck.n(150, 5000)):
         streams.append(("oracle-longlines", P.long_lines(rng)))
-    for _ in range(ck.n(600, 9000)):
+    for _ in range(ck.n(300, 9000)):
         streams.append(("oracle-exprs", "from t\nselect {v = %s}\n" % G.src(G.gen_expr(rng, rng.choice([2, 3, 3, 4]), {"clean": True}))))
     # generated, hostile (constructs of the known findings included)
     P.CLEAN[0] = False
-    for _ in range(ck.n(150, 2500)):
+    for _ in range(ck.n(80, 2500)):
         streams.append(("oracle-hostile", P.syntactic(rng)))
         streams.append(("oracle-hostile", P.compilable(rng)))
         streams.append(("oracle-hostile", "from t\nselect {v = %s}\n" % G.src(G.gen_expr(rng, 3, {"clean": False}))))
